@@ -152,4 +152,32 @@ Section Client.
     obind (handle_response v pub_key nonce request resp) (fun p =>
     obind (to_time v (p_midpoint p)) (fun '(s, ns) =>
     Ok (mkout (p_verified p) s ns (p_radius p) (p_index p))))).
+
+  (* ---- main's loop over the -n requests ----
+     all requests are sent first; then the responses are handled one after another, each against
+     ITS OWN (nonce, request) and with no state carried over from the earlier ones. The first one
+     that panics ends the process (non-zero exit, nothing printed after it); a receive timeout
+     ends the run with `return` (exit 0, nothing further printed). *)
+  Inductive arrival : Type := Arrived (dgram : bytes) | TimedOut.
+  Record exchange := mkex { ex_nonce : bytes; ex_request : bytes; ex_arrival : arrival }.
+  Inductive run_end : Type := RunDone | RunTimeout | RunPanic (site : nat).
+
+  Fixpoint client_run (v : version) (pub_key : option bytes) (xs : list exchange)
+    : list client_out * run_end :=
+    match xs with
+    | [] => ([], RunDone)
+    | x :: rest =>
+        match ex_arrival x with
+        | TimedOut => ([], RunTimeout)
+        | Arrived d =>
+            match client_handle v pub_key (ex_nonce x) (ex_request x) d with
+            | Ok o => let '(os, e) := client_run v pub_key rest in (o :: os, e)
+            | Err _ => ([], RunPanic site_cl_decode)      (* unreachable: C01_fail_is_panic *)
+            | Panic s => ([], RunPanic s)
+            end
+        end
+    end.
+
+  Definition exit_zero (e : run_end) : bool :=
+    match e with RunPanic _ => false | _ => true end.
 End Client.
